@@ -201,14 +201,20 @@ def pdag_to_dag(G):
             # since there are no outgoing edges, all directed adjacencies are parent nodes
             # now check that all undirected neighbors are adjacent to all its adjacent nodes
             undir_nbrs = list(undir_G.neighbors(nodes[idx]))
-            nearby_is_clique = False
+            nbrs_adj_to_all = True
             if len(undir_nbrs) != 0:
                 parents = dir_G.predecessors(nodes[idx])
-                # adj = full_undir_G.neighbors(nodes[idx])
-                undir_nbrs_and_parents = set(undir_nbrs).union(set(parents))
-                nearby_is_clique = is_clique(full_undir_G, undir_nbrs_and_parents)
+                adj_nodes = set(undir_nbrs).union(set(parents))
+                # every undirected neighbor must be adjacent to every other node
+                # adjacent to x; the parents need not be adjacent to each other
+                nbrs_adj_to_all = all(
+                    full_undir_G.has_edge(nbr, other)
+                    for nbr in undir_nbrs
+                    for other in adj_nodes
+                    if other != nbr
+                )
 
-            if len(undir_nbrs) == 0 or nearby_is_clique:
+            if len(undir_nbrs) == 0 or nbrs_adj_to_all:
                 found = True
 
                 # now, we orient all undirected edges between x and its neighbors
